@@ -32,7 +32,8 @@ pub open spec fn gamma(c: ExpressionContext, p: Pos) -> bool {
         ExpressionContext::TypeAssertion => p is AssertOperand,
         ExpressionContext::BinaryLHS => p is BinLhs && p->BinLhs_0 != OP_CARET,
         ExpressionContext::BinaryLHSExponent => p == Pos::BinLhs(OP_CARET),
-        ExpressionContext::UnaryOrBinary => p is UnaryOperand || p is BinRhs,
+        // (the hanging path also uses UnaryOrBinary for the left operand of every operator but `^`)
+        ExpressionContext::UnaryOrBinary => p is UnaryOperand || p is BinRhs || (p is BinLhs && p->BinLhs_0 != OP_CARET),
     }
 }
 // contexts in which something may follow the expression on its right (an operator): there the
@@ -147,6 +148,16 @@ def items():
         b && closed_ctx(context) ==> !right_open(skel(*internal_expression)), //# C05.cep_closed
     decreases internal_expression,
 """),
+        Fn(EX, "keep_double_minus_apart", contract="""
+    requires wf(skel(expression)), no_double_minus(skel(expression)),
+    ensures
+        erase(skel(r)) == erase(skel(expression)),
+        skel(r) == skel(expression) || skel(r) == Skel::Paren(Box::new(skel(expression))),
+        wf(skel(r)), no_double_minus(skel(r)),
+        right_open(skel(r)) ==> right_open(skel(expression)),
+        fits(skel(expression), Pos::UnaryOperand) ==> fits(skel(r), Pos::UnaryOperand),
+        unop_id(*unop) == UN_MINUS ==> !(skel(r) is Un && skel(r)->Un_0 == UN_MINUS), //# C01.double_minus_guard
+"""),
         Fn(EX, "format_expression", contract="""
     requires wf(skel(*expression)),
     ensures expr_post(*expression, r, ExpressionContext::Standard), //# C05.format_expression
@@ -184,25 +195,75 @@ def items():
                     .collect();""", "let trailing_comments: Vec<Token> = verif::hole_vec_token();", why="iterator-adapter chain with closures"),
             Hole("strip_leading_trivia(&unop).to_string().len()", "verif::hole_usize()", why="Display width of a node"),
             Hole("binop.to_string().len()", "verif::hole_usize()", why="Display width of a node"),
-            # proof hints only (asserts are proved, not assumed): the recursive spec functions need a second
-            # unfolding at the join after the `- -x` special case
-            After("Expression::UnaryOperator { unop, expression } => {", "let ghost old_operand = **expression;"),
-            Before("""            Expression::UnaryOperator {
-                unop,
-                expression: Box::new(expression),
-            }""", """assert(erase(skel(expression)) == erase(skel(old_operand)));
-            assert(wf(skel(expression)));
-            assert(no_double_minus(skel(expression)));
-            assert(fits(skel(expression), Pos::UnaryOperand));
-            assert(right_open(skel(expression)) ==> right_open(skel(old_operand)));
-            assert(unop_id(unop) == UN_MINUS ==> !(skel(expression) is Un && skel(expression)->Un_0 == UN_MINUS));"""),
         ]),
     ]
+    its += hanging_items()
     return its
+
+def post(prefix, e, ctx, extra=""):
+    return f"""
+    ensures
+        same_tree({e}, r), //# {prefix}.erase
+        wf(skel(r)), //# {prefix}.wf
+        no_double_minus(skel(r)), //# {prefix}.no_double_minus
+        forall|p: Pos| #![trigger gamma({ctx}, p)] #![trigger fits(skel(r), p)] gamma({ctx}, p) && fits(skel({e}), p) ==> fits(skel(r), p), //# {prefix}.fits
+        stays_closed({e}, r, {ctx}), //# {prefix}.closed
+{extra}"""
+
+W = "verif::hole_usize()"
+
+def hanging_items():
+    return [
+        Item(EX, "struct", "LeftmostRangeHang", keep_derives=("Clone", "Copy")),
+        Item(EX, "trait", "ToRange"),
+        Raw("""
+impl ToRange for (usize, usize) { #[verifier::external_body] fn to_range(&self) -> (usize, usize) { unimplemented!() } }
+impl ToRange for Expression { #[verifier::external_body] fn to_range(&self) -> (usize, usize) { unimplemented!() } }
+#[verifier::external_body] pub fn hole_lhs_range() -> Option<LeftmostRangeHang> { unimplemented!() }
+""", module="formatters::expression"),
+        Fn(EX, "find", impl_of="LeftmostRangeHang", mode="stub"),
+        Fn(EX, "required_shape", impl_of="LeftmostRangeHang", mode="stub"),
+        Fn(EX, "hang_binop", mode="stub", contract="ensures binop_id(r) == binop_id(binop),"),
+        Fn(EX, "is_hang_binop_over_width", mode="stub"),
+        Fn(EX, "binop_expression_contains_comments", mode="stub"),
+        Fn(EX, "binop_precedence_level", mode="stub"),
+        Fn(EX, "did_hang_expression", mode="stub"),
+        Item(EX, "enum", "ExpressionSide", keep_derives=()),
+        Fn(EX, "hanging_lhs_context", contract="ensures forall|p: Pos| p == Pos::BinLhs(binop_id(*binop)) ==> #[trigger] gamma(r, p), closed_ctx(r), //# C05.hanging_lhs_context"),
+        Fn(EX, "hang_binop_expression", contract="""
+    requires wf(skel(expression)),""" + post("C05.hang_binop", "expression", "expression_context", """
+    decreases expression, 3int,
+"""), edits=[
+            Hole('const SPACE_LEN: usize = " ".len();', "let SPACE_LEN: usize = verif::hole_usize();", why="str::len in a const; value only feeds widths"),
+            Hole("strip_trivia(&new_binop).to_string().len()", W, why="Display width of a node"),
+        ]),
+        Fn(EX, "format_hanging_expression_", contract="""
+    requires wf(skel(*expression)),""" + post("C05.hanging", "*expression", "expression_context", """
+    decreases expression, 2int,
+"""), edits=[
+            Hole("let expression_str = formatted_expression.to_string();", "let expression_str_len: usize = verif::hole_usize();", why="Display width of a node"),
+            Hole("2 + expression_str.len()", "expression_str_len", why="Display width of a node"),
+            Hole("strip_leading_trivia(&unop).to_string().len()", W, why="Display width of a node"),
+            Hole("strip_trivia(binop).to_string().len()", W, count=2, why="Display width of a node"),
+            Hole('format!("{binop}{rhs}").len()', W, why="Display width of a node"),
+        ]),
+        Fn(EX, "hang_expression", contract="""
+    requires wf(skel(*expression)),""" + post("C05.hang_expression", "*expression", "ExpressionContext::Standard"), edits=[
+            Hole("""let lhs_range =
+        hang_level.map(|_| LeftmostRangeHang::find(expression, original_additional_indent_level));""",
+                 "let lhs_range = hole_lhs_range();", why="closure; only feeds indentation"),
+        ]),
+        Fn(EX, "hang_expression_trailing_newline", contract="""
+    requires wf(skel(*expression)),""" + post("C05.hang_expression_nl", "*expression", "ExpressionContext::Standard")),
+        Fn(EX, "is_string", mode="verify", contract="decreases expression,"),
+        Fn(EX, "is_brackets_string", mode="verify", contract="decreases expression,"),
+    ]
 
 LABELS = {
     "C05.cep_sound": dict(props=["C05", "C02"], text="check_excess_parentheses returns true only if the bare inner expression fits every position the context stands for"),
     "C05.cep_keeps_multivalue_if_binop": dict(props=["C05", "C02"], text="calls, `...`, if-expressions and binary operations never lose their parentheses"),
+    "C01.double_minus_guard": dict(props=["C01", "C05"], text="the operand handed back for a unary minus is never itself a bare unary minus"),
+    "C05.hanging_lhs_context": dict(props=["C05", "C02"], text="the context the hanging path gives to a left operand soundly describes `left operand of this operator` (in particular BinaryLHSExponent for `^`)"),
     "C05.format_expression": dict(props=["C05", "C02", "C01"], text="format_expression: operator tree preserved modulo redundant parentheses, output re-parse-stable, no `--`"),
     "C05.single_line.erase": dict(props=["C05", "C02"], text="format_expression_internal (single-line path): operator tree preserved modulo redundant parentheses; call/`...` parentheses kept"),
     "C05.single_line.wf": dict(props=["C05", "C02", "C01"], text="single-line path: the output tree re-parses to itself (every operand fits its position)"),
@@ -211,6 +272,13 @@ LABELS = {
     "C05.single_line.closed": dict(props=["C05", "C01"], text="single-line path: under an operator the result does not become right-open (type assertion / if-expression stay attached)"),
     "C05.single_line.fits": dict(props=["C05", "C02"], text="single-line path: the result still fits every position its ExpressionContext stands for"),
 }
+for _p, _t in [("C05.hang_binop", "hang_binop_expression (hanging path, operand chains)"), ("C05.hanging", "format_hanging_expression_ (hanging path)"),
+               ("C05.hang_expression", "hang_expression"), ("C05.hang_expression_nl", "hang_expression_trailing_newline")]:
+    LABELS[_p + ".erase"] = dict(props=["C05", "C02"], text=_t + ": operator tree preserved modulo redundant parentheses; call/`...` parentheses kept")
+    LABELS[_p + ".wf"] = dict(props=["C05", "C02", "C01"], text=_t + ": every operand of the output fits its position (re-parse-stable)")
+    LABELS[_p + ".no_double_minus"] = dict(props=["C05", "C01"], text=_t + ": no unary minus directly under a unary minus (`--x`)")
+    LABELS[_p + ".fits"] = dict(props=["C05", "C02"], text=_t + ": the result still fits every position its ExpressionContext stands for")
+    LABELS[_p + ".closed"] = dict(props=["C05", "C01"], text=_t + ": under an operator the result does not become right-open")
 
 VERIF_MOD = Raw("""
 #[verifier::external_body] pub fn hole_vec_token() -> Vec<Token> { unimplemented!() }
